@@ -69,8 +69,9 @@ struct Shared {
     /// gate ids in the order they started holding
     arrivals: Mutex<Vec<(u64, u32, i64, u64)>>,
     arrivals_cv: Condvar,
-    /// last schedule point reached per chain
-    last_point: Mutex<HashMap<i64, u32>>,
+    /// last schedule point reached per chain and how many points the chain has reached so far (a chain that was
+    /// resumed, drew and paused again is at the same point but not at the same count)
+    last_point: Mutex<HashMap<i64, (u32, u64)>>,
 }
 
 static SHARED: OnceLock<Arc<Shared>> = OnceLock::new();
@@ -109,7 +110,10 @@ fn on_point(s: &Shared, point: u32, chain: u64, draw: u64) {
         CURRENT_CHAIN.with(|c| c.set(chain_i));
     }
     if chain_i >= 0 {
-        s.last_point.lock().unwrap().insert(chain_i, point);
+        let mut lp = s.last_point.lock().unwrap();
+        let n = lp.get(&chain_i).map(|e| e.1).unwrap_or(0);
+        lp.insert(chain_i, (point, n + 1));
+        drop(lp);
     }
     let (log, yield_pm, sleep_pm, max_sleep, seed, gate, timeout) = {
         let mut cfg = s.config.lock().unwrap();
@@ -192,7 +196,7 @@ pub fn reset(cfg: Config) {
 }
 
 /// Last schedule point reached by every chain that has started.
-pub fn chain_points() -> HashMap<i64, u32> {
+pub fn chain_points() -> HashMap<i64, (u32, u64)> {
     shared().last_point.lock().unwrap().clone()
 }
 
